@@ -14,6 +14,9 @@ package acl
 //                   repeats run against cache sizes 1, 4 and 1024 (so > cache-size distinct
 //                   queries for 1 and 4)
 //   acl-bigcache    fewer rule sets with > 1024 distinct queries against cache size 1024
+//   acl-longlist    one synthetic list of > 65 536 rules (thorough: also > 131 072); queries whose
+//                   deciding rule sits at positions 0, 1, 254..257, 65 533..65 538, ..., last, each
+//                   asked cold and then three more times (cache hits)
 //   acl-concurrent  8 goroutines querying one compiled rule set (cache 1/4/64/1024), each
 //                   answer compared with the reference; the job runs under -race
 
@@ -56,6 +59,7 @@ type vfC09Case struct {
 	ObNames []string
 	Queries []vfC09Query
 	Expect  []vfC09Expect
+	Long    string // non-empty: a synthetic very long list; replay files describe it instead of carrying it
 }
 
 func vfC09NewCase(k *vfKit, id string, nQueries int) *vfC09Case {
@@ -102,6 +106,9 @@ func (c *vfC09Case) compile(k *vfKit, cache int) CompiledRuleSet[string] {
 
 func (c *vfC09Case) replay(extra map[string]any) map[string]any {
 	m := map[string]any{"case_id": c.ID, "rules_text": c.Text, "rules": c.Rules, "outbounds": c.ObNames}
+	if c.Long != "" {
+		m = map[string]any{"case_id": c.ID, "rule_list": c.Long, "rule_count": len(c.Rules), "outbounds": c.ObNames}
+	}
 	for k, v := range extra {
 		m[k] = v
 	}
@@ -405,5 +412,127 @@ func TestVerifC09Concurrent(t *testing.T) {
 		if i == 0 {
 			k.Sample(map[string]any{"case_id": id, "rules_text": c.Text, "goroutines": workers, "lookups_per_goroutine": per, "cache_size": cs})
 		}
+	}
+}
+
+// vfC09LongCase builds a list of n rules in which rule i is the only rule covering "its" host:
+// an IPv4 single-address rule (cheap to scan), at a few positions an exact-name rule instead.
+// Outbounds cycle, and three rules in four carry a hijack address that encodes i, so the answer
+// names the deciding rule. The last rule is `all` for tcp only (udp requests for unknown hosts miss).
+// Expectations: every address in the list is distinct (checked while building), so the deciding
+// rule of the probe aimed at rule i is i itself (plus the final `all` rule as a second match for
+// tcp); three probes are cross-checked against the O(n) reference evaluator used everywhere else.
+func vfC09LongCase(k *vfKit, id string, n int) *vfC09Case {
+	rg := k.Rand(id)
+	c := &vfC09Case{ID: id, ObNames: []string{"ob1", "ob2", "direct", "proxy_3", "x9"}}
+	first := byte(11 + rg.Intn(100))
+	c.Long = fmt.Sprintf("rule i (0-based, i < %d): outbound %v[i%%5], address %d.(i>>16).(i>>8&255).(i&255) -- or the exact name h<i>.long.test "+
+		"where i%%65536 is 255, 65535 or 2 -- hijack 172.(16+(i>>16)).(i>>8&255).(i&255) unless i%%4==0; last rule: ob2(all,tcp)", n-1, c.ObNames, first)
+	c.Rules = make([]vfC09Rule, n)
+	var sb []byte
+	distinct := make(map[string]struct{}, n)
+	for i := 0; i < n-1; i++ {
+		r := &c.Rules[i]
+		r.Outbound = c.ObNames[i%5]
+		if m := i % 65536; m == 255 || m == 65535 || m == 2 {
+			r.Kind, r.Pattern = vfC09Exact, fmt.Sprintf("h%d.long.test", i)
+			r.Text = r.Outbound + "(" + r.Pattern
+		} else {
+			r.Kind, r.IP = vfC09IP, net.IP{first, byte(i >> 16), byte(i >> 8), byte(i)}
+			r.Text = r.Outbound + "(" + r.IP.String()
+		}
+		if i%4 != 0 {
+			r.Hijack = net.IP{172, byte(16 + i>>16), byte(i >> 8), byte(i)}
+			r.Text += ",*," + r.Hijack.String()
+		}
+		r.Text += ")"
+		distinct[r.Pattern+"|"+string(r.IP)] = struct{}{}
+		sb = append(sb, r.Text...)
+		sb = append(sb, '\n')
+	}
+	last := &c.Rules[n-1]
+	last.Kind, last.Outbound, last.Proto, last.Text = vfC09All, "ob2", vfC09TCP, "ob2(all,tcp)"
+	sb = append(sb, last.Text...)
+	sb = append(sb, '\n')
+	c.Text = string(sb)
+	var probes []int
+	for base := 0; base < n; base += 65536 {
+		for _, d := range []int{-3, -2, -1, 0, 1, 2, 254, 255, 256, 257} {
+			if i := base + d; i >= 0 && i < n-1 {
+				probes = append(probes, i)
+			}
+		}
+	}
+	probes = append(probes, n-3, n-2)
+	if len(distinct) != n-1 {
+		k.t.Fatalf("harness error: long list has %d distinct addresses for %d rules", len(distinct), n-1)
+	}
+	for pi, i := range probes {
+		r := &c.Rules[i]
+		q := vfC09Query{Proto: 1 + pi%2, Port: uint16(1 + rg.Intn(65535))}
+		if r.Kind == vfC09Exact {
+			q.Name = r.Pattern
+		} else {
+			q.V4 = r.IP
+		}
+		c.Queries = append(c.Queries, q)
+		e := vfC09Expect{Rule: i, AltRule: i, Matching: 1}
+		if q.Proto == vfC09TCP {
+			e.Matching = 2 // the final `all` rule matches as well
+		}
+		c.Expect = append(c.Expect, e)
+	}
+	// nobody's host: decided by the last rule (tcp) or by no rule at all (udp)
+	c.Queries = append(c.Queries,
+		vfC09Query{Name: "nobody.long.test", V4: net.IP{first, 255, 255, 255}, Proto: vfC09TCP, Port: 443},
+		vfC09Query{Name: "nobody.long.test", V4: net.IP{first, 255, 255, 255}, Proto: vfC09UDP, Port: 443})
+	c.Expect = append(c.Expect, vfC09Expect{Rule: n - 1, AltRule: n - 1, Matching: 1}, vfC09Expect{Rule: -1, AltRule: -1})
+	for _, qi := range []int{rg.Intn(len(probes)), len(probes) - 1, len(c.Queries) - 1 - rg.Intn(2)} {
+		if e, _ := vfC09Ref(c.Rules, &c.Queries[qi], true); e != c.Expect[qi].Rule {
+			k.t.Fatalf("harness error: long-list query %d: analytic deciding rule %d, reference evaluator %d", qi, c.Expect[qi].Rule, e)
+		}
+	}
+	return c
+}
+
+func TestVerifC09LongList(t *testing.T) {
+	k := vfNewKit(t, "C09", "acl-longlist")
+	defer k.Finish()
+	sizes := []int{65536 + 1500}
+	if !k.Quick() {
+		sizes = append(sizes, 2*65536+700)
+	}
+	for ci, n := range sizes {
+		id := fmt.Sprintf("long-%d", ci)
+		if rc := k.ReplayCase(); rc != "" && rc != id {
+			continue
+		}
+		c := vfC09LongCase(k, id, n)
+		k.Eval()
+		c.countExpectations(k)
+		k.Count("ev_long_rule_lists", 1)
+		k.Count("ev_rules", int64(n))
+		rg := k.Rand(id + "/history")
+		nq := len(c.Queries)
+		var hist []int
+		for qi := 0; qi < nq; qi++ { // cold, then immediately again
+			hist = append(hist, qi, qi)
+		}
+		for qi := 0; qi < nq; qi++ {
+			hist = append(hist, qi)
+		}
+		hist = append(hist, rg.Perm(nq)...)
+		first := make([]*vfC09Answer, nq)
+		c.runHistory(k, 64, hist, first) // cache larger than the query set: every repeat is a cache hit
+		deep := 0
+		for qi := range c.Queries {
+			if c.Expect[qi].Rule >= 65535 {
+				deep++
+			}
+		}
+		k.Count("ev_queries_decided_beyond_rule_65535", int64(deep))
+		k.Sample(map[string]any{"case_id": id, "rule_list": c.Long, "rule_count": n, "distinct_queries": nq,
+			"lookups_per_cache_size": len(hist), "cache_sizes": []int{64},
+			"example_query": c.Queries[nq/2], "example_expected": c.want(nq / 2), "example_got": first[nq/2]})
 	}
 }
